@@ -186,6 +186,16 @@ Theorem C08_trace_inclusion_sound : forall c evs, accepts c evs = true ->
 Proof. exact accepts_sound. Qed.
 Print Assumptions C08_trace_inclusion_sound.
 
+(* ... and in such a run every observed event is stamped in an LTS state (itself reached by a run of the LTS) whose
+   event log -- the log the theorems above speak about -- already contains what it reports: f's begin/end stamps
+   follow the task's EvBegin, an observed sticky error is the first error of the log, and when Wait returns x every
+   registered task went through its deferred function and x is the first error of the log. *)
+Theorem C08_trace_inclusion_backed : forall c its o, cfg_ok c -> orun c oinit its = Some o ->
+  forall its1 e its2, its = its1 ++ IO e :: its2 ->
+  exists o1, orun c oinit its1 = Some o1 /\ steps c init (labels_of its1) (o_s o1) /\ backed o1 e.
+Proof. exact obs_backed. Qed.
+Print Assumptions C08_trace_inclusion_backed.
+
 (* non-vacuity: two writers of one key, serialised, are accepted; overlapped they are not; one worker may start
    the two readers that a writer's deferred function released in either order (Go map order, label LRot) *)
 Definition ti_c : cfg := mkC [[(0%N,5%N)]; [(0%N,5%N)]] 100000000 2.
@@ -200,3 +210,16 @@ Example C08_trace_inclusion_ex_map_order :
           [ORun 0; ORun 1; ORun 2; OBeg 0; OEnd 0 true; OBeg 2; OEnd 2 true; OBeg 1; OEnd 1 true;
            OWaitCall; OWaitRet 0] = true.
 Proof. vm_compute. reflexivity. Qed.
+Definition ti_obs : list oev :=
+  [ORun 0; OBeg 0; ORun 1; OEnd 0 false; OSeen 2; OWaitCall; OWaitRet 2].
+Definition ti_its : list item := match plan ti_c ti_obs with Some x => x | None => [] end.
+Example C08_trace_inclusion_backed_ex :
+  cfg_ok ti_c /\
+  match orun ti_c oinit ti_its with
+  | Some o => obs_of ti_its = ti_obs /\ first_err (log (o_s o)) = Some (ETask 0) /\ ~ In (EvBegin 1) (log (o_s o))
+  | None => False
+  end.
+Proof.
+  split; [apply cfg_ok_b; vm_compute; reflexivity|]. vm_compute. split; [reflexivity|]. split; [reflexivity|].
+  intros H. repeat (destruct H as [H|H]; [discriminate H|]). exact H.
+Qed.
